@@ -1317,11 +1317,8 @@ def _su2_parameters(U, tol=1e-10):
     # Sometimes the absolute value of the matrix entry is very, very close to
     # 1 and slightly above, when it should be 1 exactly. Isolate these cases
     # to prevent us from getting NaN.
-    b = None
-    if np.isclose(np.absolute(U[0, 1]), 1, atol=tol, rtol=0):
-        b = 2 * np.arcsin(1)
-    else:
-        b = 2 * np.arcsin(np.absolute(U[0, 1]))
+    # arctan2 of both moduli never produces NaN and keeps a small cos(b/2) = |U[0, 0]|
+    b = 2 * np.arctan2(np.absolute(U[0, 1]), np.absolute(U[0, 0]))
 
     arg_pos = np.angle(U[0, 0])  # (a + g)/2
     arg_neg = -np.angle(U[1, 0])  # (a - g)/2
